@@ -1,4 +1,5 @@
 import DAVerif.Drv.OpsJson
+import DAVerif.Ops.Compose
 /-! Driver suites for the operator layer: `k2_build` (builders), `k4_sem` (Pandas executor semantics). -/
 namespace DAVerif.Drv.OpsDrv
 open Lean DAVerif DAVerif.Drv
@@ -54,6 +55,27 @@ def handleSem (c : Json) : Except String Json := do
     | .ok t => return Json.mkObj [("ok", tableToJson t)]
     | .error e => return errToJson e
 
-def handlers : List (String × Handler) := [("k2_build", handleBuild), ("k4_sem", handleSem)]
+def handleUsed (c : Json) : Except String Json := do
+  let ops ← opsOfJson (← obj c "ops")
+  match ops.columnsUsed with
+  | .ok u => return Json.mkObj [("ok", Json.mkObj (u.map (fun kv => (kv.1, strListOut kv.2))))]
+  | .error e => return errToJson e
+
+def handleEq (c : Json) : Except String Json := do
+  let p ← opsOfJson (← obj c "p")
+  let q ← opsOfJson (← obj c "q")
+  return Json.mkObj [("pq", .bool (Ops.eqOps p q)), ("qp", .bool (Ops.eqOps q p)), ("pp", .bool (Ops.eqOps p p))]
+
+/-- `a >> b` = `b.act_on(a)` -/
+def handleCompose (c : Json) : Except String Json := do
+  let a ← opsOfJson (← obj c "a")
+  let b ← opsOfJson (← obj c "b")
+  match Ops.actOn b a with
+  | .ok r => return Json.mkObj [("ok", opsToJson r)]
+  | .error e => return errToJson e
+
+def handlers : List (String × Handler) :=
+  [("k2_build", handleBuild), ("k4_sem", handleSem), ("k3_used", handleUsed), ("k3_eq", handleEq),
+   ("k3_compose", handleCompose)]
 
 end DAVerif.Drv.OpsDrv
